@@ -727,6 +727,19 @@ def gen_cases(tier, seed):
             plan['faults'].append({'at': first, 'phase': rng.choice(['before', 'after']), 'kind': 'exc', 'tag': 'FAULT-req'})
         spec['plan'] = plan
         cases.append({'type': 'e2e', 'spec': spec})
+    # the final step is in flight when the transfer is cancelled and then fails on its own: done() has been True since the cancel,
+    # what result() reports stays the cancellation
+    for i in range(50 if quick else 500):
+        kind, extra, key = rng.choice([('upload', {'src': 'path', 'size': 9}, 't0/s3:PutObject#0'), ('upload', {'src': 'nonseekable', 'size': 9}, 't0/s3:PutObject#0'),
+                                       ('upload', {'src': 'seekable', 'size': 27}, 't0/s3:CompleteMultipartUpload#0'),
+                                       ('copy', {'size': 9}, 't0/s3:CopyObject#0'), ('copy', {'size': 27}, 't0/s3:CompleteMultipartUpload#0'),
+                                       ('delete', {'size': 3}, 't0/s3:DeleteObject#0'), ('download', {'dst': 'path', 'size': 9}, 't0/fs:rename#0')])
+        cfg = dict(multipart_threshold=16, multipart_chunksize=8, io_chunksize=4, max_request_concurrency=rng.choice([1, 2]))
+        spec = {'seed': rng.randrange(1 << 30), 'min_part': 8, 'config': cfg, 'transfers': [dict({'kind': kind}, **extra)], 'family': 'then-final-step-fails',
+                'poll_done': True,
+                'plan': {'cancel': {'at': key, 'phase': 'before', 'how': 'future.cancel', 'from': rng.choice(['main', 'event'])},
+                         'faults': [{'at': key, 'phase': 'after', 'kind': 'oserror' if '/fs:' in key else rng.choice(['exc', 'client4xx']), 'tag': 'FAULT-final'}]}}
+        cases.append({'type': 'e2e', 'spec': spec})
     return cases
 
 
